@@ -14,5 +14,17 @@ CLAIMS = {
           'correspondence bounded by generated logs (<= ~25 lines, 1-3 files)',
   'technique': 'Coq proof of model = specification (induction over lines) + extracted-model differential correspondence with robsd-regress-log',
  },
+
+ 'C09': {
+  'text': 'Coq theorems (closed under the global context): the model of interpolate.c computes exactly the substitution relation '
+          '(copy bytes, replace the first well-formed ${n} by the recursively interpolated value, continue), for all templates, environments and '
+          'depth limits; malformed/unknown references are errors; every reference cycle of any length is rejected at every depth; the depth limit read '
+          'from the source is exact (3 nested variables accepted, 4 rejected); files interpolate line by line all-or-nothing with exit 1 and empty '
+          'output on failure. Termination is by construction (structural recursion, no fuel). Tied to the code by the translated limit and by '
+          'differential runs through robsd-config -v ... - and an in-process interpolate_str harness (both flag values).',
+  'note': 'trusted: Coq kernel, extraction, translator regex for the limit, generators; strchr/arena/buffer/stdio modelled not verified; the lookup callback is '
+          'a pure function in this model; correspondence bounded by generated templates (<= ~10 tokens) and environments (<= 7 variables)',
+  'technique': 'Coq proof (model <-> inductive substitution relation, cycle and depth theorems) + regenerated constant + extracted-model differential correspondence',
+ },
 }
 NOT_APPLICABLE = {p: PENDING for p in ['C%02d' % i for i in range(1, 21)] if p not in CLAIMS}
